@@ -158,6 +158,66 @@ def gen_misc(r, n):
     return L
 
 
+def gen_obj(r, n):
+    """histories on one periodic variable: modifications of period / wrapping centre (modifycvcs) interleaved
+    with colvar::wrap and colvar::dist2 calls; values aimed at the edges of the interval in force"""
+    L = []
+    periods = [360.0, 2.0, 1.0, 8.0, 0.5, 6.0, 25.0, 10.0]
+    for k in range(n):
+        P = r.choice(periods); c = V.dyadic(r, -4, 4, bits=2)
+        w = ["OBJ", hx(P), hx(c)]
+        for j in range(r.randint(2, 7)):
+            m = r.random()
+            if m < 0.35:
+                P = r.choice(periods); c = V.dyadic(r, -4, 4, bits=2)
+                w += ["M", hx(P), hx(c)]
+            elif m < 0.75:
+                x = c + P / 2 * r.choice([-1, 1]) + r.randint(-2, 2) * P if r.random() < 0.3 else c + V.dyadic(r, -3, 3, bits=8) * P
+                w += ["W", hx(x)]
+            else:
+                w += ["D", hx(V.dyadic(r, -9, 9) * P / 4), hx(V.dyadic(r, -9, 9) * P / 4)]
+        if "M" not in w:
+            P = r.choice(periods); c = V.dyadic(r, -4, 4, bits=2)
+            w += ["M", hx(P), hx(c), "W", hx(c + V.dyadic(r, -3, 3, bits=8) * P)]
+        if "W" not in w and "D" not in w:
+            w += ["W", hx(c + V.dyadic(r, -3, 3, bits=8) * P)]
+        L.append(" ".join(w))
+    return L
+
+
+def oracle_obj(line, out):
+    """on the implementation's own outputs: every wrap result lies in the one-period interval around the centre IN FORCE
+    at the time of the call, on a value equivalent under the period in force; dist2 = (shortest image)^2, grad = 2*image"""
+    w = line.split(); o = parse(out)
+    if o is None:
+        return "no numeric result (%s)" % out
+    P, c = float.fromhex(w[1]), float.fromhex(w[2])
+    i = 3; k = 0
+    while i < len(w):
+        if w[i] == "M":
+            P, c = float.fromhex(w[i + 1]), float.fromhex(w[i + 2]); i += 3
+        elif w[i] == "W":
+            x = float.fromhex(w[i + 1]); i += 2
+            if k >= len(o):
+                return "missing output"
+            y = o[k]; k += 1
+            n = (x - y) / P
+            if not (c - P / 2 <= y < c + P / 2) or abs(n - round(n)) > 1e-9:
+                return ("after the history %s: wrap(%r) returned %r, which is not the equivalent value in [c-P/2, c+P/2) "
+                        "for the period %r and centre %r in force" % (" ".join(w[:i - 2]), x, y, P, c))
+        else:
+            x1, x2 = float.fromhex(w[i + 1]), float.fromhex(w[i + 2]); i += 3
+            if k + 1 >= len(o):
+                return "missing output"
+            d2, g = o[k], o[k + 1]; k += 2
+            d = x1 - x2
+            img = d - math.floor(d / P + 0.5) * P
+            if not close(d2, img * img, 1e-8) or not close(g, 2 * img, 1e-8):
+                return ("after the history %s: dist2(%r,%r) = %r, gradient %r; the shortest image under the period %r in force is %r"
+                        % (" ".join(w[:i - 3]), x1, x2, d2, g, P, img))
+    return None
+
+
 def oracle_misc(line, out):
     w = line.split(); o = parse(out)
     if o is None:
@@ -192,7 +252,8 @@ def check(run):
     quick = run.tier == "quick"
     run.cov["rule"] = ("groups of related calls to dist2/dist2_grad (colvarvalue for scalar, 3-vector, unit vector, quaternion, vector; real colvar objects for "
                        "periodic distanceZ and distanceVec with/without forceNoPBC and cell): base, swapped, identical arguments, +/-h along a (tangent) direction, "
-                       "period/sign/lattice images; ~30% of periodic cases exactly on the half-period cut; plus wrap and interpolate calls. "
+                       "period/sign/lattice images; ~30% of periodic cases exactly on the half-period cut; plus wrap and interpolate calls, and histories on one periodic "
+                       "variable object (modifycvcs changes of period/wrapAround interleaved with colvar::wrap and colvar::dist2 calls). "
                        "distinct = distinct base line; non-trivial = arguments differ and (for periodic/cell cases) the nearest image is not the identity image or the case is on the cut")
     run.assumptions += ["theorems are about the R instance of the model; the tie runs the float instance and compares with relative tolerance 1e-9 (acos, sqrt) and exactly for dyadic cases",
                         "colvar::dist2_rgrad is not used by any bias and is outside the property (gradient with respect to the first argument)",
@@ -204,6 +265,7 @@ def check(run):
     unitp = exes["c18unit"]
     groups = gen_groups(r, 700 if quick else 20000)
     misc = gen_misc(r, 300 if quick else 8000)
+    misc += gen_obj(r, 150 if quick else 3000)
     lines = []
     for g in groups:
         g.off = len(lines)
@@ -264,7 +326,7 @@ def check(run):
     for i, l in enumerate(misc):
         run.count(l, True)
         run.dist("misc:" + l.split()[0])
-        bad = oracle_misc(l, impl[moff + i])
+        bad = oracle_obj(l, impl[moff + i]) if l.startswith("OBJ") else oracle_misc(l, impl[moff + i])
         if bad:
             run.violation("misc:" + l.split()[0], bad, {"kind": "unit", "lines": [l], "impl": [impl[moff + i]]})
     run.sample({"group": groups[0].lines, "impl": impl[groups[0].off:groups[0].off + len(groups[0].lines)]})
